@@ -141,6 +141,25 @@ func runC07(c *h.Ctx) {
 			}
 		}
 	}
+	// an operand of a strict filter that meets a mismatch after it has selected
+	// something (the offending element or subscript is not the first one): the
+	// condition is unknown whatever was selected before
+	{
+		k := 0
+		for _, cond := range []string{"@[*].a == 1", "@[0, 5] == 1", "@.v[*].a == 1", "1 == @[*].a", "@[*].a > 0 && @[0].a == 1", "exists(@[*].a)", "@[0 to 1].a == 1", "@[*].a.b == 2", "@[1, 0].a == 1", "!(@[*].a == 7)"} {
+			for _, d := range []string{`[{"a":1},{}]`, `[{},{"a":1}]`, `[{"a":1},{"a":1}]`, `[1,2]`, `{"v":[{"a":1},3]}`, `[{"a":1},[]]`, `[{"a":{"b":2}},{"a":5}]`, `[[{"a":1}],{"a":1}]`} {
+				for _, form := range []string{"$ ? (%s)", "$ ? ((%s) is unknown)", "$.* ? (%s)", "$ ? (%s).type()"} {
+					k++
+					if !c.Mine(k) {
+						continue
+					}
+					ptxt := fmt.Sprintf(form, cond)
+					checkStructural(c, "strict "+ptxt, d, false)
+					checkStructural(c, ptxt, d, true)
+				}
+			}
+		}
+	}
 	// random larger accessor/filter paths
 	r := c.Rand("c07")
 	g := &gen.G{R: r, C: gen.DefaultCfg()}
